@@ -363,6 +363,17 @@ def run(chk, facts, info):
             if ks & lane:
                 filt_reads |= ks & lane
     if not filt_reads:
+        # the selecting loop may live in a helper ProcessFile() calls
+        for b, i, ln, c in pf.calls():
+            g = pf.unit.funcs.get(callee_name(c) or '')
+            if g is None or g is pf or g.entry is None:
+                continue
+            for bid, bl in g.blocks.items():
+                cnd = bl.get('cond')
+                if cnd is not None:
+                    ks = {P.gkey(g, m[0], m[1]) for m in walk(cnd) if isinstance(m, (list, tuple)) and m and m[0] in ('g', 'gs')}
+                    filt_reads |= ks & lane
+    if not filt_reads:
         raise AnalysisBroken('lane filter of ProcessFile not found')
     n9 = 0
     for b, i, ln, c in pf.calls('fseek'):
